@@ -4,6 +4,12 @@
 
 package requests
 
+import "net/http"
+
+// Undecodable: the HTTP request cannot be decoded into GraphQL operations (defined as
+// "Parse returns an error"; the gateway must answer 422 exactly for these).
+func Undecodable(r *http.Request) bool { panic("ghost") }
+
 //@ func IsBatchMode
 //@ props C07
 //@ end
@@ -30,6 +36,7 @@ package requests
 //@ props C07 C08
 //@ requires r != nil
 //@ ensures[resp] finalErr == nil ==> resp != nil
+//@ assumes-post (finalErr != nil) == Undecodable(r)
 //@ ensures[single] finalErr == nil && !resp.IsBatchMode ==> len(resp.Requests) == 1
 //@ ensures[nonnil] finalErr == nil ==> forall(k, 0, len(resp.Requests), resp.Requests[k] != nil)
 //@ end
